@@ -377,7 +377,7 @@ func (vc *FuncVC) applyContract(s *State, cl *callee, ord int, site ssa.Instruct
 	for _, l := range c.Lets { // the callee's entry-state definitions, evaluated in the pre-call state
 		t := vc.tr(e, l.E)
 		got := t.GoT
-		t = vc.nameTerm(t, "let_"+l.Name)
+		t = vc.nameTermMin(t, "let_"+l.Name, 40)
 		t.GoT = got
 		e.vars[l.Name] = t
 	}
